@@ -9,14 +9,15 @@ from vlib.engine import Prop, Failure
 from props import msagen as G
 from props import c01_autogen as AUTOGEN
 from props import c01_growth as GROWTH
+from props import c01_numtok as NUMTOK
 
 MODELLED = ["afa", "a2m", "clustal", "clustallike", "psiblast", "phylip", "phylips", "selex", "stockholm", "pfam"]                         # formats whose reader exists in the Lean model (text + digital, declared format)
 MODELLED_ABC = ["text", "amino", "dna", "rna"]
 ALL_FORMATS = G.FORMATS
 UNMODELLED = [f for f in ALL_FORMATS if f not in MODELLED]    # format autodetection and alphabet guessing are modelled (Msafile/Guess.lean); not reachable from the harness: the ".gz" suffix branch of esl_msafile_GuessFileFormat (esl_buffer_Open pipes such files through gzip)
 
-STABLE_ANCHOR_KEY = "C01:selex-stream:stable-anchor-uaf"
 LEAK_KEY = None
+CHECK_SELEX_KEY = "C01:check-selex:plain-anchor-uaf"
 NUL_ANNOTATION_KEY = "C01:annotation:embedded-nul"
 GS_AFTER_BLOCK_KEY = "C01:stockholm:gs-after-last-block"
 
@@ -47,6 +48,7 @@ class C01(Prop):
         "selexConfigs_valid", "selex_total", "selex_no_fault", "selex_eformat_has_message", "selex_ok_wellformed", "selex_read_all_total",
         "stoConfigs_valid", "stockholm_total", "stockholm_total_rest", "stockholm_no_fault", "stockholm_eformat_has_message", "stockholm_ok_wellformed",
         "sto_growth_keeps_lens", "sto_growth_keeps_ogr_slot", "sto_expandseq_ogr",
+        "stockholmV_erase", "stockholmV_total", "stockholmV_total_rest", "stockholmV_ok_wellformed", "opened_readV_good",
         "cfgOf_valid", "opened_cfg_valid", "opened_read_good", "guess_no_fault", "open_total", "open_total_fmtd", "auto_total", "open_status_documented")] + [
         "EaselModel.Msafile.openModelW_zero", "EaselModel.Msafile.openModelW_auto", "EaselModel.Msafile.openModelW_no_fault",
         "EaselModel.Msafile.guessFormat_no_fault", "EaselModel.Msafile.guessAlphabet_no_fault", "EaselModel.Msafile.checkSeqUnknown_no_fault",
@@ -56,7 +58,9 @@ class C01(Prop):
         "EaselModel.Msafile.afaRead_good", "EaselModel.Msafile.a2mRead_good", "EaselModel.Msafile.clustalRead_good",
         "EaselModel.Msafile.psiblastRead_good", "EaselModel.Msafile.runLines_inv",
         "EaselModel.Msafile.expandAll_inv", "EaselModel.Msafile.pdExpandSeq_sqlen", "EaselModel.Msafile.pdExpandSeq_perLen", "EaselModel.Msafile.pdExpandSeq_ogrLen",
-        "EaselModel.Msafile.pdExpandSeq_rest", "EaselModel.Msafile.msaExpand_rows", "EaselModel.Msafile.msaExpand_gr"]
+        "EaselModel.Msafile.pdExpandSeq_rest", "EaselModel.Msafile.msaExpand_rows", "EaselModel.Msafile.msaExpand_gr",
+        "EaselModel.Msafile.stockholmReadV_erase", "EaselModel.Msafile.patchMsa_wellFormed", "EaselModel.Msafile.stockholmReadV_good",
+        "EaselModel.Msafile.stockholmReadV_ok", "EaselModel.Msafile.stockholmReadV_rest", "EaselModel.Msafile.Opened.readV_good"]
     claimed = True
     technique = ("Lean 4 proof (totality, fault-freedom and well-formedness of an executable line-by-line model of the alignment readers, bounds-checked "
                  "auxiliary arrays) + exact differential correspondence of the model with the ASan/UBSan/LSan-built readers + property monitors on all ten formats")
@@ -73,24 +77,33 @@ class C01(Prop):
                   "line-by-line model never faults (every auxiliary array carries the allocation size the C code computes) and never raises an internal exception, and an "
                   "alignment returned with ok is well formed (>=1 sequence, every row and every per-column / per-residue annotation incl. unparsed #=GC/#=GR of length alen, "
                   "text rows NUL-free, digital rows sentinel-delimited with codes < Kp, weights all default or all set); the abstract LF/CRLF line reader partitions the "
-                  "input. The hand models are tied to the working tree by an exact differential run (status sequence + full MSA dump compared; numeric payload of "
-                  "Stockholm weights/cut-offs masked). All formats + autodetection + alphabet guessing are additionally exercised on the real ASan/UBSan/LSan-built "
+                  "input. The numeric payload of Stockholm #=GS WT weights and #=GF GA/NC/TC cut-offs is in the model (Msafile/StoNum.lean: strtod on the longest valid "
+                  "prefix of the token, decimal and hexadecimal syntax correctly rounded in exact integer arithmetic, (float) second rounding for cut-offs, infinities exact, NaN "
+                  "canonical) through stockholmReadV, proved equal to stockholmRead up to wgt/cutoff (stockholmV_erase) so that totality / no fault / well-formedness transfer. "
+                  "The growth step of the Stockholm reader (esl_msa_Expand + stockholm_parsedata_ExpandSeq at the 17th/33rd/65th name) is stated slot by slot (sto_growth_keeps_lens: "
+                  "old slots of sqlen/sslen/salen/pplen/every ogr_len[tag] keep their value, new slots 0). "
+                  "The hand models are tied to the working tree by an exact differential run (status sequence + full MSA dump compared bit for bit incl. weights and cut-offs; "
+                  "only NaN payloads canonicalised); a divergence is a violation with a shrunk replay. All formats + autodetection + alphabet guessing are additionally exercised on the real ASan/UBSan/LSan-built "
                   "readers with property monitors (status set, message on eformat, esl_msa_Validate + independent field-length/sentinel/weight checks on every field, "
                   "per-operation leak check, no ESL_EXCEPTION, identical result from memory / file / slurped / mmap / small-page stream sources). Generators beyond mutation/grammar/raw: "
                   "block anomalies, allocation-growth boundaries (lines per block 15..33; 16/17/32/33/64/65 sequences with sparse parsed/unparsed #=GR and #=SS/#=SA), NUL-only and "
                   "NUL+blank lines adjacent to the blocks of every line-oriented format (esl_memspn/esl_memtok agreement), PHYLIP files of name width 1..25 opened with a matching / "
-                  "non-matching / unset FMTDATA name width, the open path at its decision boundaries.")
+                  "non-matching / unset FMTDATA name width, the open path at its decision boundaries; enumerated valid-by-construction growth shapes (props/c01_growth.py: Stockholm "
+                  "16/17/32/33/64/65 sequences x 2-3 blocks x sparse unparsed/parsed #=GR, #=GC before/at/after each doubling x names from the block or a complete/partial/permuted "
+                  "#=GS header; the other eight readers with the same row counts and 127..257-byte lines; monitor: read back as n x alen); numeric tokens (props/c01_numtok.py: "
+                  "printf forms, midpoints of adjacent doubles/floats, subnormal/overflow thresholds, 127..129-byte tokens, hex constants, junk after a valid prefix).")
     level_note = ("Format autodetection and alphabet guessing are in the model and in the theorems (AUTODETECT section of Props/C01.lean); the 0.02*n double comparisons of esl_abc_GuessAlphabet are "
                   "modelled as exact integer tests 50*d <= n (equal to the binary64 comparison for every n < 2^50; confirmed on every generated case); the '.gz' suffix branch of "
                   "esl_msafile_GuessFileFormat is modelled but cannot be driven through the harness (esl_buffer_Open pipes such files through gzip). Trusted: Lean kernel + propext/Classical.choice/Quot.sound; fidelity of the hand models is checked (not proved) by the "
                   "differential run; ESL_BUFFER's refinement to the abstract line reader is property C05 (SELEX line pointers are abstracted to line contents); keyhash "
                   "lookups are abstracted to first-index-by-name (C19); allocation never fails; leaks are outside the model (LeakSanitizer per operation). "
-                  "Known finding C01:selex-stream:stable-anchor-uaf (shared with C05): SELEX / autodetect inputs on stream and file-mode sources are kept below one page.")
+                  "C01:selex-stream:stable-anchor-uaf was repaired by 188d0b6 (SELEX inputs of any size now go through stream and file-mode sources with every page size). Known finding "
+                  "C01:check-selex:plain-anchor-uaf (found when the restriction was lifted): msafile_check_selex() keeps <firstname> under a plain anchor - autodetected inputs on stream/file sources stay within one page until the proposed one-line fix lands.")
     diverge_is_violation = True     # every op is a deterministic function of (bytes, format, alphabet, source) that the model specifies exactly (all ten readers + the open path)
     quick_budget_s = 75
     thorough_budget_s = 900
     trusted_base = ["hand model of the open path of esl_msafile.c (msafile_OpenBuffer, esl_msafile_GuessFileFormat, msafile_check_selex, esl_msafile_GuessAlphabet), esl_msafile_phylip.c (CheckFileFormat and its five helpers), "
-                    "the seven esl_msafile_*_GuessAlphabet, esl_alphabet.c esl_abc_GuessAlphabet, easel.c esl_file_Extension; hand model of esl_msafile_afa.c, esl_msafile_a2m.c (incl. a2m_padding_*), esl_msafile_clustal.c, esl_msafile_psiblast.c, esl_msafile_phylip.c (interleaved + sequential, esl_mem_strtoi32 header), esl_msafile_selex.c (block reader, lpos/rpos, annotation lines; line pointers abstracted), esl_msafile_stockholm.c (ESL_STOCKHOLM_PARSEDATA, the six line parsers, block invariant over sqlen/sslen/salen/pplen/ogc_len/ogr_len/bi/npb; keyhash lookups abstracted to first-index-by-name; numeric payload of weights and cut-offs not modelled, only accept/reject and set/unset) readers (+ easel.c esl_strmapcat, esl_alphabet.c esl_abc_dsqcat, esl_mem.c esl_memtok/esl_memspn, esl_msa.c setters) "
+                    "the seven esl_msafile_*_GuessAlphabet, esl_alphabet.c esl_abc_GuessAlphabet, easel.c esl_file_Extension; hand model of esl_msafile_afa.c, esl_msafile_a2m.c (incl. a2m_padding_*), esl_msafile_clustal.c, esl_msafile_psiblast.c, esl_msafile_phylip.c (interleaved + sequential, esl_mem_strtoi32 header), esl_msafile_selex.c (block reader, lpos/rpos, annotation lines; line pointers abstracted), esl_msafile_stockholm.c (ESL_STOCKHOLM_PARSEDATA, the six line parsers, block invariant over sqlen/sslen/salen/pplen/ogc_len/ogr_len/bi/npb; keyhash lookups abstracted to first-index-by-name; numeric payload of weights and cut-offs = glibc strtod modelled in StoNum.lean, NaN payload canonicalised) readers (+ easel.c esl_strmapcat, esl_alphabet.c esl_abc_dsqcat, esl_mem.c esl_memtok/esl_memspn, esl_msa.c setters) "
                     "tied by exact differential run (h_msafile.c, ASan+UBSan+LSan build of the working tree)",
                     "abstract line reader (split at LF, one CR stripped before LF): ESL_BUFFER's refinement to it is property C05, assumed here and re-checked "
                     "by running every input through memory, file, slurped-file, mmap and small-page stream sources and demanding identical results",
@@ -117,7 +130,7 @@ class C01(Prop):
         c = []
         def add(name, data, fmt, abc="text", src="mem", ps=0, **kw):
             c.append(dict({"name": name, "ops": [self._op(data, fmt, abc, src, ps)]}, **kw))
-        # DESIGN section 7 witnesses (items 5, 6, 7, 15 are fixed; 16, 17, 18 pending; 8 known)
+        # DESIGN section 7 witnesses (all fixed; kept as regression cases)
         for abc in ("text", "dna"):
             add("item5-afa-ff", b"\x0c", "afa", abc); add("item5-a2m-ff", b"\x0c", "a2m", abc)
             add("item6-a2m-empty-record", b">a\n>b\nAC\n", "a2m", abc)
@@ -134,7 +147,15 @@ class C01(Prop):
         add("leak-afa", b">a\nAC\n>b\nACG\n", "afa"); add("leak-a2m", b">a\nAC\n>b\nACG\n", "a2m")
         add("leak-psiblast", b"a ACG\nb AC!\n", "psiblast"); add("leak-selex", b"a ACG\nb ACG\n\na ACG\n", "selex")
         add("leak-clustal", b"CLUSTAL W (1.83) multiple sequence alignment\n\na ACG\nb AC\n", "clustal")
-        add("item8-selex-stream", selex_witness(), "selex", "text", "stream", 0, known_key=STABLE_ANCHOR_KEY)
+        # item 8 (fixed by 188d0b6: buffer_refill() no longer moves / reallocs the window under a stable anchor): plain regression cases
+        for src, ps in (("stream", 0), ("file", 0), ("stream", 16), ("file", 64), ("stream", 4096)):
+            add("item8-selex-%s-%d" % (src, ps), selex_witness(), "selex", "text", src, ps)
+            # one block only: with a second block msafile_check_selex() compares against its dangling <firstname> (CHECK_SELEX_KEY)
+            add("item8-auto-selex-%s-%d" % (src, ps), selex_witness(), "auto", "guess", src, ps)
+        add("check-selex-two-blocks-stream", selex_witness() + b"\n" + selex_witness(), "auto", "text", "stream", 0, known_key=CHECK_SELEX_KEY)
+        phy = (" 72 110\n" + "".join("seq%03d    %s\n" % (i, "ACDEFGHIKLMNPQRSTVWY" * 5 + "ACDEFGHIKL") for i in range(72))).encode()
+        for src, ps in (("stream", 0), ("stream", 16), ("file", 64)):
+            add("item8-auto-phylip-%s-%d" % (src, ps), phy, "auto", "text", src, ps)
         add("selex-only-cs", b"#=CS <<>>\n", "selex"); add("selex-cr", b"\r", "selex", "amino"); add("selex-rf-then-block", b"#=RF x\n\nseq1 ACGT\n", "selex")
         add("nul-in-selex-cs", b"#=CS xx\x00xx\nseq1 ACDEF\nseq2 ACDEF\n", "selex")
         add("nul-in-stockholm-gc", b"# STOCKHOLM 1.0\nseq1 ACDEF\n#=GC SS_cons xx\x00xx\n//\n", "stockholm")
@@ -155,18 +176,15 @@ class C01(Prop):
         return fmt, abc
 
     def _sources(self, rng, fmt, n):
-        """2 sources per input: memory + one buffered source; known stable-anchor region avoided (see known finding)"""
-        risky = fmt in ("selex", "auto")
+        """2 sources per input: memory + one buffered source (every format, every size: the stable-anchor defect is repaired)"""
         out = [("mem", 0)]
-        r = rng.random()
-        if risky:
-            if n < 3900 and r < 0.5: out.append((rng.choice(["stream", "file"]), 0))
-            else: out.append((rng.choice(["allfile", "mmap"]) if n > 0 else "allfile", 0))
-        else:
-            src = rng.choice(["stream", "stream", "file", "file", "allfile", "mmap"])
-            if n == 0 and src == "mmap": src = "allfile"      # mmap() of an empty file cannot happen without the hook (empty files are slurped)
-            ps = rng.choice([2, 3, 4, 5, 7, 8, 16, 17, 64, 512, 4096, 0]) if src in ("stream", "file") else 0
-            out.append((src, ps))
+        src = rng.choice(["stream", "stream", "file", "file", "allfile", "mmap"])
+        if n == 0 and src == "mmap": src = "allfile"      # mmap() of an empty file cannot happen without the hook (empty files are slurped)
+        ps = rng.choice([2, 3, 4, 5, 7, 8, 16, 17, 64, 512, 4096, 0]) if src in ("stream", "file") else 0
+        if fmt == "auto" and src in ("stream", "file"):    # known finding CHECK_SELEX_KEY: autodetection keeps a line pointer under a plain anchor
+            ps = 0
+            if n >= 3900: src = "allfile"
+        out.append((src, ps))
         return out
 
     def cases(self, ctx):
@@ -247,7 +265,7 @@ class C01(Prop):
             data = G.nul_line_adjacent(rng, f)
             abcs = rng.sample(["text", "amino", "dna", "rna"], 2)
             ops = [self._op(data, f, abc, "mem", 0) for abc in abcs]
-            if f != "selex" and rng.random() < 0.3: ops.append(self._op(data, f, abcs[0], rng.choice(["stream", "file"]), rng.choice([2, 5, 16, 0])))
+            if rng.random() < 0.3: ops.append(self._op(data, f, abcs[0], rng.choice(["stream", "file"]), rng.choice([2, 5, 16, 0])))
             if rng.random() < 0.2: ops.append(self._op(data, "auto", abcs[0], "mem", 0))
             stats["kinds"]["nulline"] = stats["kinds"].get("nulline", 0) + 1
             stats["formats"][f] = stats["formats"].get(f, 0) + 1
@@ -276,17 +294,27 @@ class C01(Prop):
         #     counts and with sequence lines of 127..257 bytes
         for nm, data, exp in GROWTH.stockholm_cases(rng, quick):
             f2 = rng.choice(["stockholm", "pfam", "auto"]); a2 = rng.choice(["amino", "dna", "text", "guess"])
-            s2, p2 = (rng.choice([("stream", 16), ("file", 64), ("stream", 0), ("allfile", 0)]) if f2 != "auto" else rng.choice([("mem", 0), ("allfile", 0)]))
+            s2, p2 = rng.choice([("stream", 16), ("file", 64), ("stream", 0), ("allfile", 0), ("mem", 0)])
+            if f2 == "auto" and s2 in ("stream", "file"): s2, p2 = ((s2, 0) if len(data) < 3900 else ("allfile", 0))     # CHECK_SELEX_KEY
             ops = [self._op(data, "stockholm", "text", "mem", 0), self._op(data, f2, a2, s2, p2)]
             stats["kinds"]["growth-sto"] = stats["kinds"].get("growth-sto", 0) + 1
             out.append({"name": "growth:" + nm, "ops": ops, "expect": exp})
         for nm, f, data, exp in GROWTH.other_cases(rng, quick):
             a2 = rng.choice(["amino", "dna"])
-            if f != "selex": s2, p2 = rng.choice([("stream", 16), ("file", 128), ("stream", 0), ("allfile", 0), ("mmap", 0)])
-            else: s2, p2 = (rng.choice([("stream", 0), ("file", 0), ("allfile", 0)]) if len(data) < 3900 else rng.choice([("allfile", 0), ("mmap", 0)]))   # known finding: SELEX below one page
+            s2, p2 = rng.choice([("stream", 16), ("file", 128), ("stream", 0), ("file", 0), ("allfile", 0), ("mmap", 0)])
             ops = [self._op(data, f, "text", "mem", 0), self._op(data, f, a2, s2, p2)]
             stats["kinds"]["growth-" + f] = stats["kinds"].get("growth-" + f, 0) + 1
             out.append({"name": "growth:" + nm, "ops": ops, "expect": exp})
+        # 3i. the numeric payload of Stockholm weights and cut-offs (props/c01_numtok.py): printf forms, midpoints of adjacent doubles /
+        #     floats, subnormal / overflow thresholds, 127..129-byte tokens (esl_memtod's fixed buffer), hex constants, junk after a valid prefix
+        for i in range(700 if quick else 12000):
+            data, used = NUMTOK.num_file(rng)
+            f = rng.choice(["stockholm", "stockholm", "pfam", "auto"]); abc = rng.choice(["text", "text", "amino", "dna"])
+            ops = [self._op(data, f, abc, "mem", 0)]
+            if rng.random() < 0.25: ops.append(self._op(data, "stockholm", "text", rng.choice(["stream", "file"]), rng.choice([3, 64, 0])))
+            stats["kinds"]["numtok"] = stats["kinds"].get("numtok", 0) + 1
+            stats["bytes_total"] += len(data); stats["max_len"] = max(stats["max_len"], len(data))
+            out.append({"name": "numtok%d" % len(out), "ops": ops})
         # 4. raw bytes
         for _ in range(n_raw):
             emit("raw", G.raw_bytes(rng), rng.choice(ALL_FORMATS + [None]))
@@ -295,6 +323,8 @@ class C01(Prop):
         for data, fmt, abc, src, sfx in AUTOGEN.build(rng, 0.03 if quick else 0.4):
             ops = [self._op(data, fmt, abc, src, 0, sfx if src != "mem" else None)]
             if src != "mem" and sfx is None: ops.append(self._op(data, fmt, abc, "mem", 0))
+            if src == "mem" and rng.random() < 0.35 and (fmt != "auto" or len(data) < 3900):      # autodetection / guessing from buffered sources
+                ops.append(self._op(data, fmt, abc, rng.choice(["stream", "file"]), rng.choice([3, 16, 64, 512, 0]) if fmt != "auto" else 0))
             stats["kinds"]["open"] = stats["kinds"].get("open", 0) + 1
             stats["formats"][fmt] = stats["formats"].get(fmt, 0) + 1
             stats["abc"][abc] = stats["abc"].get(abc, 0) + 1
@@ -326,9 +356,18 @@ class C01(Prop):
 
     @staticmethod
     def _mask(line):
-        """the numeric VALUE of Stockholm weights / cut-offs is not modelled (which are set is): mask the payload on both sides"""
-        line = re.sub(r";w=[0-9a-f,]+", lambda m: ";w=" + re.sub(r"[0-9a-f]{16}", "v", m.group(0)[3:]), line)
-        return re.sub(r";cut=[0-9a-f~,]+", lambda m: ";cut=" + re.sub(r"[0-9a-f]{8}", "v", m.group(0)[5:]), line)
+        """the numeric VALUE of Stockholm weights / cut-offs is modelled (Msafile/StoNum.lean) and compared bit for bit; the one stated
+        canonicalisation: every NaN pattern (payload of `nan(...)` tokens) reads `nan` / `-nan` on both sides"""
+        def w(m):
+            v = int(m.group(0), 16)
+            if (v >> 52) & 0x7ff == 0x7ff and v & ((1 << 52) - 1): return ("-" if v >> 63 else "") + "nan"
+            return m.group(0)
+        def c(m):
+            v = int(m.group(0), 16)
+            if (v >> 23) & 0xff == 0xff and v & ((1 << 23) - 1): return ("-" if v >> 31 else "") + "nan"
+            return m.group(0)
+        line = re.sub(r";w=[0-9a-f,]+", lambda m: ";w=" + re.sub(r"[0-9a-f]{16}", w, m.group(0)[3:]), line)
+        return re.sub(r";cut=[0-9a-f~,]+", lambda m: ";cut=" + re.sub(r"[0-9a-f]{8}", c, m.group(0)[5:]), line)
 
     def nontrivial(self, case, out):
         return any(" rd=ok " in l or " rd=eformat" in l for l in out)
